@@ -276,7 +276,10 @@ class AstChecker:
 
     def node(self, n, scopes):
         k = n["k"]
-        self.tagloc(n)
+        if k in ("elem", "include", "slot", "tmplref"):
+            # (an if-group / a list / a block is not one tag pair: the harness hands over one branch's tag for it, next to the
+            # group's own span - those are left to the element they came from)
+            self.tagloc(n)
         if k == "text":
             self.slice(n)
             for c in n["ch"]:
